@@ -49,6 +49,11 @@ def gen_lines(rnd, tier):
                 for alt in ALTS:
                     for cu in CUSTOMS:
                         L.append("call %s %s %s %s %s" % (cf, prov, hs, alt, cu))
+    for cf in ["p71", "p72"]:
+        for hs in ["-", "n", "v30"]:
+            for alt in ALTS:
+                for cu in CUSTOMS:
+                    L.append("call %s 0 %s %s %s" % (cf, hs, alt, cu))
     for cf in CONFS2:
         for prov in "01":
             for hs in ["-", "n", "v30", "r40", "n,v31"]:
@@ -69,6 +74,11 @@ def gen_lines(rnd, tier):
     return L
 
 
+def pcase(f):
+    """a stand-in specification whose truth test raises: the provided check is reached (and raises) unless a custom __adapt__ replaces it"""
+    return f[1][0] == "p"
+
+
 def effective(line):
     """a super object provides what the classes after the named one implement: declarations on the named class or on the
     instance do not count"""
@@ -76,6 +86,10 @@ def effective(line):
     if f[1][0] == "Y":
         f[2] = f[2] if f[1] == "Ya" else "0"
         f[1] = "a"
+    if pcase(f):
+        # (with a custom __adapt__ the built-in provided check is never made; otherwise it raises before any hook)
+        f[1] = "a" if f[5] != "-" else "A" + f[1][1:]
+        f[2] = "0"
     return " ".join(f)
 
 
